@@ -2054,7 +2054,11 @@ class IMAPClientCommand:
     def _p_string(self) -> str:
         """A string is either a 'quoted string' or a 'literal string'"""
         try:
-            return self._p_re(_quoted_re)[1:-1]
+            quoted = self._p_re(_quoted_re)[1:-1]
+            # `\"` and `\\` are how `"` and `\` are written inside a quoted
+            # string (rfc3501: quoted-specials)
+            #
+            return re.sub(r'\\(["\\])', r"\1", quoted)
         except NoMatch:
             pass
 
